@@ -57,9 +57,11 @@ pub enum Src {
     /// wrapped Vec / by-value iterator of 64 KiB items (tok::Big)
     SBigVec,
     SBigIter,
+    /// the range 1..usize::MAX (only with `endless` cases)
+    PRangeMax,
 }
 
-pub const ALL_SRC: [(Src, &str); 40] = [
+pub const ALL_SRC: [(Src, &str); 41] = [
     (Src::SVec, "svec"),
     (Src::SSlice, "sslice"),
     (Src::SIter, "siter"),
@@ -100,6 +102,7 @@ pub const ALL_SRC: [(Src, &str); 40] = [
     (Src::PConIterParPre, "pconiterparpre"),
     (Src::SBigVec, "sbigvec"),
     (Src::SBigIter, "sbigiter"),
+    (Src::PRangeMax, "prangemax"),
 ];
 
 #[derive(Clone, Copy, Debug, PartialEq, Eq)]
@@ -135,7 +138,7 @@ impl Src {
         match self {
             Src::SVec | Src::SIter | Src::SBigVec | Src::SBigIter | Src::PVec | Src::PIter | Src::PDeque | Src::PList | Src::PBTree | Src::PHeap | Src::PHash => ItemKind::Owned,
             Src::PClonedAd | Src::PClonedIt | Src::PConVec | Src::PConVecPre | Src::PConIterPre | Src::PConIterParPre | Src::PConIter | Src::PConIterPar | Src::PBTreeMap | Src::PHashMap => ItemKind::Owned,
-            Src::SRange | Src::PRange | Src::PCopiedAd | Src::PConRange | Src::PConRangePre => ItemKind::Usize,
+            Src::SRange | Src::PRange | Src::PRangeMax | Src::PCopiedAd | Src::PConRange | Src::PConRangePre => ItemKind::Usize,
             _ => ItemKind::Ref,
         }
     }
